@@ -670,3 +670,220 @@ Proof.
   - apply (existsb_In kseq_eqb); [apply kseq_eqb_eq|]. vm_compute. reflexivity.
   - vm_compute. repeat split; reflexivity.
 Qed.
+
+(* ---------- Key.String / Key.MatchString ---------- *)
+Definition lower_hyp (u : uni) : Prop :=
+  forall c, 0 <= c <= 127 -> u_tolower u c = if in_range c 65 90 then c + 32 else c.
+(* SimpleFold on ASCII letters and digits/punctuation used in key names: folding equals ASCII case folding *)
+Definition fold_hyp (u : uni) : Prop :=
+  forall a b, 0 <= a <= 127 -> 0 <= b <= 127 ->
+    (u_fold u a =? u_fold u b) = (u_fold ascii_uni a =? u_fold ascii_uni b).
+
+Definition noplus (l : list Z) : bool := forallb (fun c => negb (c =? 43)) l.
+
+Lemma split_plus_noplus cur a : noplus a = true -> split_plus cur a = [rev cur ++ a].
+Proof.
+  revert cur. induction a as [|c a IH]; intros cur H; cbn.
+  - now rewrite app_nil_r.
+  - cbn in H. apply andb_true_iff in H as [Hc Ha]. apply negb_true_iff in Hc. rewrite Hc.
+    rewrite IH by exact Ha. cbn. now rewrite <- app_assoc.
+Qed.
+
+Definition pre_b (b5 b4 b3 b2 b1 b0 : bool) : list Z :=
+  (if b5 then [77; 101; 116; 97; 43] else []) ++ (if b4 then [72; 121; 112; 101; 114; 43] else []) ++
+  (if b3 then [83; 117; 112; 101; 114; 43] else []) ++ (if b2 then [67; 116; 114; 108; 43] else []) ++
+  (if b1 then [65; 108; 116; 43] else []) ++ (if b0 then [83; 104; 105; 102; 116; 43] else []).
+Definition mask_b (b5 b4 b3 b2 b1 b0 : bool) : Z :=
+  (if b5 then 32 else 0) + (if b4 then 16 else 0) + (if b3 then 8 else 0) + (if b2 then 4 else 0) + (if b1 then 2 else 0) + (if b0 then 1 else 0).
+
+(* what MatchString does with the key-name part *)
+Definition name_target (u : uni) (name : list Z) : Z :=
+  match name with
+  | [] => RuneError
+  | [r] => r
+  | r :: _ => match find (fun kn => equal_fold u (snd kn) name) keyNames with
+              | Some kn => fst kn
+              | None => r
+              end
+  end.
+
+Section Str.
+Variable u : uni.
+Hypothesis Hlow : lower_hyp u.
+
+Lemma match_string_printed_b k b5 b4 b3 b2 b1 b0 name :
+  noplus name = true -> name <> [] ->
+  match_string u k (pre_b b5 b4 b3 b2 b1 b0 ++ name) = matches u k (name_target u name) (mask_b b5 b4 b3 b2 b1 b0).
+Proof.
+  intros Hn Hne.
+  assert (L : forall c, 0 <= c <= 127 -> u_tolower u c = if in_range c 65 90 then c + 32 else c) by exact Hlow.
+  destruct b5, b4, b3, b2, b1, b0; unfold pre_b, mask_b; cbn [app Z.add Pos.add Pos.succ]; unfold match_string, name_target.
+  64: { destruct name as [|r [|r2 t]]; [contradiction|reflexivity|].
+        rewrite (split_plus_noplus [] _ Hn). cbn [rev app last removelast fold_left].
+        match goal with |- context [find ?f keyNames] => generalize (find f keyNames) end; intros [kn|]; reflexivity. }
+  all: cbn [split_plus Z.eqb Pos.eqb rev app]; rewrite (split_plus_noplus [] name Hn);
+       cbn [rev app last removelast fold_left map];
+       rewrite !L by lia;
+       match goal with |- context [matches _ _ RuneError ?M] => set (MM := M) end;
+       vm_compute in MM; subst MM;
+       destruct name as [|r [|r2 t]]; [contradiction|reflexivity|];
+       match goal with |- context [find ?f keyNames] => generalize (find f keyNames) end; intros [kn|]; reflexivity.
+Qed.
+
+Lemma mods_prefix_b k : (k_event k =? EventRelease) = false ->
+  mods_prefix k = pre_b (has_bit (k_mods k) ModMeta) (has_bit (k_mods k) ModHyper) (has_bit (k_mods k) ModSuper)
+                        (has_bit (k_mods k) ModCtrl) (has_bit (k_mods k) ModAlt) (has_bit (k_mods k) ModShift).
+Proof. intros H. unfold mods_prefix. rewrite H. reflexivity. Qed.
+
+Hypothesis Hfold : fold_hyp u.
+
+Lemma equal_fold_ascii a b :
+  forallb (fun c => in_range c 0 127) a = true -> forallb (fun c => in_range c 0 127) b = true ->
+  equal_fold u a b = equal_fold ascii_uni a b.
+Proof.
+  unfold equal_fold. revert b. induction a as [|x a IH]; intros [|y b] Ha Hb; cbn; try reflexivity.
+  cbn in Ha, Hb. apply andb_true_iff in Ha as [Hx Ha]. apply andb_true_iff in Hb as [Hy Hb].
+  rewrite Hfold by (unfold in_range in *; lia). now rewrite IH.
+Qed.
+
+End Str.
+
+(* facts about the translated keyNames table *)
+Definition ascii_list (l : list Z) : bool := forallb (fun c => in_range c 0 127) l.
+Definition name_unique (c : Z) : bool :=
+  match find (fun kn => equal_fold ascii_uni (snd kn) (key_name c)) keyNames with
+  | Some kn => fst kn =? c
+  | None => false
+  end.
+
+Lemma keyNames_facts :
+  forallb (fun kn => ascii_list (snd kn) && noplus (snd kn) && (2 <=? zlen (snd kn))
+                     && ((MaxRune <? fst kn) || existsb (Z.eqb (fst kn)) [9; 13; 27; 32; 127])) keyNames = true.
+Proof. vm_compute. reflexivity. Qed.
+
+Lemma key_name_in c : key_name c = [] \/ exists kn, In kn keyNames /\ fst kn = c /\ snd kn = key_name c.
+Proof.
+  unfold key_name. destruct (find (fun kn => fst kn =? c) keyNames) as [kn|] eqn:E; [right|left; reflexivity].
+  apply find_some in E as [Hin Hc]. apply Z.eqb_eq in Hc. eauto.
+Qed.
+
+Lemma key_name_facts c : key_name c <> [] ->
+  ascii_list (key_name c) = true /\ noplus (key_name c) = true /\ 2 <= zlen (key_name c) /\
+  (MaxRune < c \/ In c [9; 13; 27; 32; 127]).
+Proof.
+  intros Hne. destruct (key_name_in c) as [E|[kn [Hin [Hc Hs]]]]; [contradiction|].
+  pose proof keyNames_facts as F. rewrite forallb_forall in F. specialize (F kn Hin).
+  rewrite Hs, Hc in F. repeat (apply andb_true_iff in F; destruct F as [F ?H]).
+  repeat split; try assumption; try lia.
+  apply orb_true_iff in H as [H|H]; [left; lia|right].
+  apply existsb_exists in H as [x [Hx He]]. apply Z.eqb_eq in He. now subst.
+Qed.
+
+Lemma zrange_In a n x : a <= x < a + Z.of_nat n -> In x (zrange a n).
+Proof.
+  revert a. induction n as [|n IH]; intros a H; [lia|]. cbn [zrange].
+  destruct (Z.eq_dec a x); [left; assumption|right; apply IH; lia].
+Qed.
+
+Lemma mask_b_strip_all :
+  forallb (fun m => has_bit m ModCapsLock ||
+     (strip_locks (mask_b (has_bit m ModMeta) (has_bit m ModHyper) (has_bit m ModSuper) (has_bit m ModCtrl) (has_bit m ModAlt) (has_bit m ModShift))
+      =? strip_locks m)) (zrange 0 256) = true.
+Proof. vm_compute. reflexivity. Qed.
+
+Lemma mask_b_strip m : 0 <= m <= 255 -> has_bit m ModCapsLock = false ->
+  strip_locks (mask_b (has_bit m ModMeta) (has_bit m ModHyper) (has_bit m ModSuper) (has_bit m ModCtrl) (has_bit m ModAlt) (has_bit m ModShift))
+  = strip_locks m.
+Proof.
+  intros Hm Hc. pose proof mask_b_strip_all as F. rewrite forallb_forall in F.
+  specialize (F m (zrange_In 0 256 m ltac:(lia))). rewrite Hc in F. cbn [orb] in F. now apply Z.eqb_eq.
+Qed.
+
+(* the keys whose String() is a binding string that MatchString parses back to the key *)
+Definition sm_scope (k : key) : bool :=
+  negb (k_event k =? EventRelease) && negb (has_bit (k_mods k) ModCapsLock) && in_range (k_mods k) 0 255 &&
+  ((in_range (k_code k) 33 MaxRune && rune_valid (k_code k) && negb (k_code k =? 43) && negb (k_code k =? 127))
+   || (negb (match key_name (k_code k) with [] => true | _ => false end) && name_unique (k_code k))).
+
+Lemma name_target_long u name : 2 <= zlen name ->
+  name_target u name = match find (fun kn => equal_fold u (snd kn) name) keyNames with Some kn => fst kn | None => hd 0 name end.
+Proof.
+  unfold zlen. destruct name as [|r [|r2 t]]; cbn [length]; try lia. intros _. reflexivity.
+Qed.
+
+Section SelfString.
+Variable u : uni.
+Hypothesis Hlow : lower_hyp u.
+Hypothesis Hfold : fold_hyp u.
+
+Lemma string_self_match k : sm_scope k = true -> match_string u k (key_string u k) = true.
+Proof.
+  unfold sm_scope. intros H.
+  apply andb_true_iff in H as [H Hcode]. apply andb_true_iff in H as [H Hm].
+  apply andb_true_iff in H as [Hev Hcaps]. apply negb_true_iff in Hev, Hcaps.
+  assert (Hm' : 0 <= k_mods k <= 255) by (unfold in_range in Hm; lia).
+  assert (Hfin : forall body, noplus body = true -> body <> [] -> name_target u body = k_code k ->
+                 match_string u k (mods_prefix k ++ body) = true).
+  { intros body Hn Hne Ht. rewrite (mods_prefix_b k Hev), (match_string_printed_b u Hlow) by assumption.
+    rewrite Ht, matches_core_eq, (mask_b_strip _ Hm' Hcaps). unfold matches_core. now rewrite !Z.eqb_refl. }
+  apply orb_true_iff in Hcode as [Hr|Hn].
+  - (* a rune *)
+    repeat (apply andb_true_iff in Hr; destruct Hr as [Hr ?H]).
+    apply negb_true_iff in H, H0. apply Z.eqb_neq in H, H0.
+    assert (Hc : 33 <= k_code k <= MaxRune) by (unfold in_range in Hr; lia).
+    assert (Hname : key_name (k_code k) = []).
+    { destruct (key_name (k_code k)) eqn:E; [reflexivity|].
+      destruct (key_name_facts (k_code k)) as (_ & _ & _ & Hk); [rewrite E; discriminate|].
+      destruct Hk as [Hk|Hk]; [lia|]. cbn in Hk. lia. }
+    unfold key_string.
+    change KeyTab with 9. change KeySpace with 32. change KeyEsc with 27. change KeyBackspace with 127. change KeyEnter with 13.
+    replace ((k_code k =? 9) || (k_code k =? 32) || (k_code k =? 27) || (k_code k =? 127) || (k_code k =? 13)) with false by lia.
+    replace (k_code k =? 8) with false by lia. replace (k_code k <? 0) with false by lia.
+    replace (k_code k <? 32) with false by lia. replace (k_code k <=? MaxRune) with true by lia.
+    rewrite Hcaps, Hname, app_nil_r. unfold rune_fix. rewrite H1.
+    apply Hfin; [cbn; now rewrite (proj2 (Z.eqb_neq _ _) H0)|discriminate|reflexivity].
+  - (* a named key *)
+    apply andb_true_iff in Hn as [Hne Hu]. apply negb_true_iff in Hne.
+    assert (Hne' : key_name (k_code k) <> []) by (intros E; rewrite E in Hne; discriminate).
+    destruct (key_name_facts _ Hne') as (Ha & Hnp & Hlen & Hk).
+    assert (Hstr : key_string u k = mods_prefix k ++ key_name (k_code k)).
+    { unfold key_string.
+      change KeyTab with 9. change KeySpace with 32. change KeyEsc with 27. change KeyBackspace with 127. change KeyEnter with 13.
+      destruct Hk as [Hk|Hk].
+      - unfold MaxRune in Hk.
+        replace ((k_code k =? 9) || (k_code k =? 32) || (k_code k =? 27) || (k_code k =? 127) || (k_code k =? 13)) with false by lia.
+        replace (k_code k =? 8) with false by lia. replace (k_code k <? 0) with false by lia.
+        replace (k_code k <? 32) with false by lia. replace (k_code k <=? MaxRune) with false by (unfold MaxRune; lia).
+        reflexivity.
+      - replace ((k_code k =? 9) || (k_code k =? 32) || (k_code k =? 27) || (k_code k =? 127) || (k_code k =? 13)) with true by (cbn in Hk; lia).
+        reflexivity. }
+    rewrite Hstr. apply Hfin; [exact Hnp|exact Hne'|].
+    rewrite (name_target_long u _ Hlen).
+    assert (Hfind : find (fun kn => equal_fold u (snd kn) (key_name (k_code k))) keyNames
+                  = find (fun kn => equal_fold ascii_uni (snd kn) (key_name (k_code k))) keyNames).
+    { pose proof keyNames_facts as F. rewrite forallb_forall in F.
+      clear -F Ha Hfold. induction keyNames as [|kn l IH]; [reflexivity|]. cbn [find].
+      assert (Hkn : ascii_list (snd kn) = true).
+      { specialize (F kn (or_introl eq_refl)). repeat (apply andb_true_iff in F; destruct F as [F ?H]). exact F. }
+      rewrite (equal_fold_ascii u Hfold _ _ Hkn Ha). destruct (equal_fold ascii_uni (snd kn) (key_name (k_code k))); [reflexivity|].
+      apply IH. intros x Hx. apply F. now right. }
+    rewrite Hfind. unfold name_unique in Hu.
+    destruct (find (fun kn => equal_fold ascii_uni (snd kn) (key_name (k_code k))) keyNames) as [kn|]; [|discriminate].
+    now apply Z.eqb_eq.
+Qed.
+
+End SelfString.
+
+Lemma ascii_uni_lower_hyp : lower_hyp ascii_uni.
+Proof.
+  intros c Hc. unfold ascii_uni, uni_of. cbn [u_tolower]. unfold info_of.
+  replace (in_range c 0 127) with true by (unfold in_range; lia). reflexivity.
+Qed.
+
+Lemma ascii_uni_fold_hyp : fold_hyp ascii_uni.
+Proof. intros a b _ _. reflexivity. Qed.
+
+(* the named keys whose name does not lead back to them, and the decodable keys without a name *)
+Lemma name_unique_failures :
+  map fst (filter (fun kn => negb (name_unique (fst kn))) keyNames) = [KeyPrintScreen].
+Proof. vm_compute. reflexivity. Qed.
